@@ -1876,6 +1876,16 @@ fn static_damage(r: &mut Rng, g: &mut Generated, profile: Profile) -> Option<&'s
                 (" x🙂y ", Some("garbage_invalid_ident"), 1),
                 (" $🙂 ", Some("garbage_invalid_ident"), 1),
                 (" #foo ", Some("garbage_invalid_ident"), 1),
+                // `#` may only begin `#pragma` and `#dim`: near misses of both (s122)
+                (" #dq ", Some("garbage_invalid_ident"), 1),
+                (" #d ", Some("garbage_invalid_ident"), 1),
+                (" #di; ", Some("garbage_invalid_ident"), 1),
+                (" #diameter ", Some("garbage_invalid_ident"), 1),
+                (" #pq ", Some("garbage_invalid_ident"), 1),
+                (" #prag; ", Some("garbage_invalid_ident"), 1),
+                (" #pragmaa ", Some("garbage_invalid_ident"), 1),
+                (" #_ ", Some("garbage_invalid_ident"), 1),
+                (" #9 ", Some("garbage_invalid_ident"), 1),
                 (" us🇺🇸 ", Some("garbage_invalid_ident"), 1),
                 (" 🏽gate ", Some("garbage_invalid_ident"), 1),
                 (" k❤ ", Some("garbage_invalid_ident"), 1),
@@ -1924,6 +1934,10 @@ fn static_damage(r: &mut Rng, g: &mut Generated, profile: Profile) -> Option<&'s
                 ("OPENQASM 3.", "eof_version"),
                 ("OPENQASM 3.1.", "eof_version"),
                 ("k🙂", "eof_invalid_ident"),
+                ("#d", "eof_invalid_ident"),
+                ("#di", "eof_invalid_ident"),
+                ("#pragm", "eof_invalid_ident"),
+                ("#", "eof_invalid_ident"),
             ];
             if !starts.is_empty() && !w.damage.iter().any(|d| d.path == path) && r.chance(1, 4) {
                 let (junk, class) = *r.pick(JUNK_AT_EOF);
